@@ -116,12 +116,35 @@ type strat = {
   seed : int;
 }
 
-let list_len l = List.length l
+let nonempty = function [] -> false | _ -> true
 
+(* The scheduler keeps its own byte counters (rem / pipe per stream) so that choosing a step
+   costs O(1); they only guide the choice: a choice the model does not enable is skipped. *)
 let run_strategy (c : cfg) (s : strat) : result option =
   let rng = Random.State.make [| s.seed |] in
-  let st = ref (List.fold_left (fun st ch -> match step c st ch with Some x -> x | None -> st) (init c) s.pre) in
-  let budget = ref 4000 in
+  let st = ref (init c) in
+  let remn = [| List.length c.out1; List.length c.out2 |] in
+  let pipen = [| 0; 0 |] in
+  let idx = function S1 -> 0 | S2 -> 1 in
+  let apply ch =
+    match step c !st ch with
+    | None -> false
+    | Some x ->
+        (match ch with
+         | Child (CWrite (str, k)) ->
+             let k = int_of_nat k in
+             remn.(idx str) <- remn.(idx str) - k;
+             if captured c str then pipen.(idx str) <- pipen.(idx str) + k
+         | Child (CPipe (str, false)) -> remn.(idx str) <- 0
+         | Reader (str, k) ->
+             (match (sget !st str).r_pc with
+              | RLoop when pipen.(idx str) > 0 -> pipen.(idx str) <- pipen.(idx str) - int_of_nat k
+              | _ -> ())
+         | _ -> ());
+        st := x; true in
+  List.iter (fun ch -> ignore (apply ch)) s.pre;
+  let budget = ref 3000 in
+  let ticks = ref (int_of_z c.timeout + int_of_z c.poll + 1000) in
   let result = ref None in
   let pcap = int_of_z c.pcap in
   let child_choice () =
@@ -130,13 +153,12 @@ let run_strategy (c : cfg) (s : strat) : result option =
     if stx.cs <> CRun || clk < s.child_from then None
     else begin
       let cand str =
-        let x = sget stx str in
-        let r = list_len x.rem in
+        let r = remn.(idx str) in
         if r = 0 then None
         else if captured c str then
-          if x.rclosed then Some (Child (CPipe (str, s.die)))
+          if (sget stx str).rclosed then Some (Child (CPipe (str, s.die)))
           else
-            let room = pcap - list_len x.pipe in
+            let room = pcap - pipen.(idx str) in
             let k = min (min r room) s.wr_max in
             if k >= 1 then Some (Child (CWrite (str, nat_of_int k))) else None
         else Some (Child (CWrite (str, nat_of_int (min r s.wr_max))))
@@ -150,14 +172,13 @@ let run_strategy (c : cfg) (s : strat) : result option =
       match pick order with
       | Some ch -> Some ch
       | None ->
-          if list_len (sget stx S1).rem = 0 && list_len (sget stx S2).rem = 0 && clk >= s.exit_from
-          then Some (Child CExit) else None
+          if remn.(0) = 0 && remn.(1) = 0 && clk >= s.exit_from then Some (Child CExit) else None
     end in
   let reader_choice str =
     let x = sget !st str in
     match x.r_pc with
     | RLoop ->
-        let avail = list_len x.pipe in
+        let avail = pipen.(idx str) in
         if avail = 0 then (if !st.cs <> CRun then Some (Reader (str, O)) else None)
         else
           let m = min (min avail (int_of_z read_chunk)) s.rd_max in
@@ -165,18 +186,29 @@ let run_strategy (c : cfg) (s : strat) : result option =
           Some (Reader (str, nat_of_int k))
     | RFlag | RExit -> Some (Reader (str, O))
     | _ -> None in
-  while !result = None && !budget > 0 do
-    decr budget;
+  let waiter_enabled () =
+    match !st.w with
+    | WSleep u -> int_of_z u <= int_of_z !st.clock
+    | WWait _ -> !st.cs <> CRun
+    | EJoin1 _ | OJoin1 _ -> (match (sget !st S1).r_pc with RNone | RDone -> true | _ -> false)
+    | EJoin2 _ | OJoin2 (_, _) -> (match (sget !st S2).r_pc with RNone | RDone -> true | _ -> false)
+    | WDone _ -> false
+    | _ -> true in
+  while !result = None && !budget > 0 && !ticks > 0 do
     (match !st.w with WDone r -> result := Some r | _ -> ());
     if !result = None then begin
       let cands = [|
         Some Tick; child_choice (); reader_choice S1; reader_choice S2;
-        (match step c !st Waiter with Some _ -> Some Waiter | None -> None) |] in
+        (if waiter_enabled () then Some Waiter else None) |] in
       let total = ref 0 in
       Array.iteri (fun i ch -> if ch <> None then total := !total + s.wt.(i)) cands;
       let chosen =
-        if !total = 0 then Some Tick
-        else begin
+        if !total = 0 then begin
+          (* nothing with a positive weight is enabled: take any enabled non-tick step, else tick *)
+          let res = ref (Some Tick) in
+          for i = 4 downto 1 do if cands.(i) <> None then res := cands.(i) done;
+          !res
+        end else begin
           let r = ref (Random.State.int rng !total) in
           let res = ref None in
           Array.iteri (fun i ch ->
@@ -186,8 +218,9 @@ let run_strategy (c : cfg) (s : strat) : result option =
           !res
         end in
       match chosen with
-      | Some ch -> (match step c !st ch with Some x -> st := x | None -> ())
-      | None -> ()
+      | Some Tick -> decr ticks; ignore (apply Tick)
+      | Some ch -> decr budget; ignore (apply ch)
+      | None -> decr budget
     end
   done;
   !result
@@ -219,7 +252,11 @@ let strategies (c : cfg) : strat list =
   (* the clock runs first *)
   add { base with wt = [| 50; 1; 1; 1; 5 |]; seed = 7 };
   add { base with wt = [| 1; 0; 0; 0; 1 |]; seed = 8 };
-  List.rev !l
+  let all = List.rev !l in
+  (* big cases: every third strategy (list operations of the extracted model are linear) *)
+  if List.length c.out1 + List.length c.out2 > 30000
+  then List.filteri (fun i _ -> i mod 3 = 0 || i >= List.length all - 2) all
+  else all
 
 (* ---------------------------------------------------------------- the mode *)
 let policy_of = function "c" -> PCapture | "i" -> PInherit | "n" -> PNull | s -> failwith ("policy " ^ s)
